@@ -78,7 +78,7 @@ def run(ck, facts):
             continue
         if f["path"].endswith("diplomat_is_str") or "::write::" in f["path"]:
             continue
-        m = MirFn(f)
+        m = MirFn(C.inline_mir(rt, f))      # a pointer/length pair prepared by a private helper is judged where it is used
         for bb, t in m.calls():
             cal = C.mir_callee(t) or ""
             if not RAW_RE.search(cal):
@@ -133,13 +133,15 @@ def run(ck, facts):
                 g = guarded_by(m, bb, lambda s: (sym_field_of(s) or (None, None))[1] == "ptr", want_null=True)
                 ck.expect(g, "R1", key + "/dangling-only-on-null", "", "dangling pointer used outside the ptr.is_null() edge", where)
                 continue
-            if isinstance(p0, tuple) and p0[0] == "phi":
-                # Box<str>: raw = if raw.is_null() { dangling } else { raw as *mut u8 }
-                defs = m.defs.get(p0[1], [])
-                okd = len(defs) == 2
+            alts0 = m.phi_alts(p0)
+            if alts0 is not None:
+                # Box<str>: raw = if raw.is_null() { dangling } else { raw as *mut u8 }   (also as the first component of a tuple a helper returns)
+                okd = len(alts0) == 2
                 kinds = set()
-                for dbb, kind, node in defs:
-                    v = sym_strip(m.sym_rv(node["rv"])) if kind == "assign" else ("call", C.mir_callee(node), tuple(m.sym_op(z) for z in node["args"]))
+                for dbb, v in alts0:
+                    v = sym_strip(v)
+                    while isinstance(v, tuple) and v[0] == "cast":
+                        v = sym_strip(v[2])
                     if isinstance(v, tuple) and v[0] == "call" and str(v[1]).endswith("NonNull::as_ptr"):
                         kinds.add("dangling")
                         okd &= guarded_by(m, dbb, lambda s: True, want_null=True)
@@ -269,16 +271,17 @@ def run(ck, facts):
         mir = f.get("mir")
         if not mir or "blocks" not in mir:
             continue
-        m = MirFn(f)
+        m = MirFn(C.inline_mir(rt, f))
         for bb, t in m.calls():
             cal = C.mir_callee(t) or ""
             if re.search(r"from_utf8_unchecked(_mut)?$", cal):
                 n_unchecked += 1
                 a = m.sym_op(t["args"][0])
-                # must derive from field `.0` of a Utf8 view (arg1)
+                # must derive from field `.0` of a Utf8 view (arg1); a null-normalised pointer is a merge of that and a dangling constant
                 txt = sym_show(a)
-                ok = any(x[0] == "proj" and x[2] == ".0" and sym_is_arg(x[1], 1) for x in sym_walk(a))
-                ok = ok and {l for l in sym_leaves(a) if l[0] == "arg"} == {("arg", 1)}
+                alts = m.sym_alts(a)
+                ok = any(x[0] == "proj" and x[2] == ".0" and sym_is_arg(x[1], 1) for a_ in alts for x in sym_walk(a_))
+                ok = ok and {l for a_ in alts for l in sym_leaves(a_) if l[0] == "arg"} == {("arg", 1)} and not any(l[0] in ("phi", "local") for a_ in alts for l in sym_leaves(a_))
                 in_utf8 = "Utf8" in f["path"] or "UTF8" in f["path"]
                 ck.expect(ok and in_utf8, "R3", f["path"] + "/unchecked-from-view", "argument derives from the view's bytes", "from_utf8_unchecked on %s: not the bytes of a validated Utf8 view" % txt, C.loc(f, t.get("ln")))
     if n_unchecked < 3:
